@@ -67,7 +67,7 @@ pub fn gen_c02(rng: &mut Rng, tier: Tier) -> Case {
     if rng.chance(1, 5) {
         // transient-fault family: one read or seek of the source fails; every later probe runs on
         // a reset cursor and must be answered exactly
-        env.faults = vec![crate::env::FaultSpec { k: rng.log_uniform(8, 2000), err: rng.below(9) as u8, sticky: false }];
+        env.faults = vec![crate::env::FaultSpec { k: rng.log_uniform(8, 2000), err: rng.below(9) as u8, sticky: false, merge_nth: 0 }];
     }
     Case::Cursor(CursorCase { spec, env, steps, fresh_each: true, v1: false, sparse_hole })
 }
@@ -333,7 +333,7 @@ pub fn gen_c03(rng: &mut Rng, tier: Tier) -> Case {
     let mut env = gen::gen_env(rng, true);
     if rng.chance(1, 4) {
         // transient-fault family: one read or seek of the source fails somewhere in the history
-        env.faults = vec![crate::env::FaultSpec { k: rng.log_uniform(8, 3000), err: rng.below(9) as u8, sticky: false }];
+        env.faults = vec![crate::env::FaultSpec { k: rng.log_uniform(8, 3000), err: rng.below(9) as u8, sticky: false, merge_nth: 0 }];
     }
     let sparse_hole = crate::props_file::gen_hole(rng, 15);
     Case::Cursor(CursorCase { spec, env, steps, fresh_each: false, v1: false, sparse_hole })
@@ -446,9 +446,60 @@ fn gen_c16_families(rng: &mut Rng) -> Case {
     Case::Cursor(CursorCase { spec: FileSpec { knobs, entries: Entries::Literal(ents) }, env: crate::env::EnvPlan::whole(), steps, fresh_each: false, v1: false, sparse_hole: None })
 }
 
+/// Genuinely deep index trees: keys of a few hundred bytes under 1 KiB blocks give every index block
+/// a fan-out of 2-4, so that with 3-8 index levels a relative move (or the step back of a floor
+/// seek) regularly exhausts two, three or more index levels at once.
+fn gen_c16_deep(rng: &mut Rng, tier: Tier) -> Case {
+    let klen = *rng.pick(&[250usize, 330, 400, 500, 700, 1000]);
+    let levels = *rng.pick(&[2u8, 3, 4, 4, 5, 6, 8]);
+    let n = rng.urange(8, if tier == Tier::Quick { 300 } else { 1200 });
+    let mut ents = Vec::new();
+    let key_of = |x: u32, klen: usize| -> Vec<u8> {
+        let mut k = x.to_be_bytes().to_vec();
+        k.resize(klen, 0xAB);
+        k
+    };
+    for i in 0..n {
+        let v = vec![i as u8; rng.urange(0, 8)];
+        ents.push((B(key_of(6 + 2 * i as u32, klen)), B(v)));
+    }
+    let knobs = Knobs { codec: rng.weighted(&[70, 0, 10, 10, 0, 10]) as u8, level: 1, block_size: Some(1024), interval: *rng.pick(&[None, Some(1)]), levels, ctor: 0, fin: 0 };
+    let probe = |rng: &mut Rng| -> Vec<u8> {
+        let x = rng.range(4, 8 + 2 * n as u64) as u32;
+        match rng.below(4) {
+            // the bare counter: absent, its ceiling is the entry carrying that counter
+            0 => (x & !1).to_be_bytes().to_vec(),
+            // between two entries
+            1 => key_of(x | 1, klen),
+            _ => key_of(x & !1, klen),
+        }
+    };
+    let mut steps = Vec::new();
+    for _ in 0..rng.urange(4, if tier == Tier::Quick { 60 } else { 150 }) {
+        let op = match rng.weighted(&[4, 4, 12, 12, 14, 24, 8, 2, 2, 9, 9]) {
+            0 => Op::First,
+            1 => Op::Last,
+            2 => Op::Next,
+            3 => Op::Prev,
+            4 => Op::Ge(B(probe(rng))),
+            5 => Op::Le(B(probe(rng))),
+            6 => Op::Eq(B(probe(rng))),
+            7 => Op::Reset,
+            8 => Op::Current,
+            9 => Op::NextN(rng.log_uniform(1, 40) as u32),
+            _ => Op::PrevN(rng.log_uniform(1, 40) as u32),
+        };
+        steps.push(CursorStep { cur: 0, op });
+    }
+    Case::Cursor(CursorCase { spec: FileSpec { knobs, entries: Entries::Literal(ents) }, env: crate::env::EnvPlan::whole(), steps, fresh_each: rng.chance(1, 4), v1: false, sparse_hole: None })
+}
+
 pub fn gen_c16(rng: &mut Rng, tier: Tier) -> Case {
     if rng.chance(1, 8) {
         return gen_c16_families(rng);
+    }
+    if rng.chance(1, 7) {
+        return gen_c16_deep(rng, tier);
     }
     let levels = [0u8, 1, 2, 3, 4, 254][rng.weighted(&[20, 20, 25, 15, 15, 5])];
     let maxn: u64 = if levels == 254 {
@@ -518,7 +569,7 @@ pub fn gen_c16(rng: &mut Rng, tier: Tier) -> Case {
     let mut env = gen::gen_env(rng, true);
     if rng.chance(1, 5) {
         // a failing operation is still one operation: its I/O is bounded like any other
-        env.faults = vec![crate::env::FaultSpec { k: rng.log_uniform(8, 4000), err: rng.below(9) as u8, sticky: false }];
+        env.faults = vec![crate::env::FaultSpec { k: rng.log_uniform(8, 4000), err: rng.below(9) as u8, sticky: false, merge_nth: 0 }];
     }
     Case::Cursor(CursorCase { spec, env, steps, fresh_each: false, v1: false, sparse_hole: None })
 }
